@@ -7,6 +7,7 @@ from ..cfg import cfg_of
 from .. import nf, lib
 from .. import shapes as S
 from ..selftest import Mutant, Benign
+from ._c14_hunks import hunks
 
 ID = 'C14'
 MA = 'mitxgraders/helpers/calc/math_array.py'
@@ -372,6 +373,9 @@ def d1_table(ctx, idx, flag_attr):
                                                             else 'return the value linear algebra gives'), loc)
             else:
                 L, R, op, outcome, (found, text), flag = fail
+                through = [q for q in (getattr(idx, 'unreviewed', None) or []) if q in outcome.trace.methods]
+                if through:
+                    construct += ' (interpreted through %s)' % ', '.join(through)
                 pair = '%s %s %s%s' % (S.describe(L), SYM[op], S.describe(R), '' if op != 'pow' else
                                       ' with negative powers %s' % ('enabled' if flag else 'disabled'))
                 preds = predicates_text(outcome)
@@ -1337,6 +1341,9 @@ MUTANTS = [
     Mutant('seeded-C14g-nested-non-reentrant-negative-powers', SAMP, "            result, _ = evaluator(formula=self.config['formula'],\n                                  variables=sample_dict,\n                                  functions=functions,\n                                  suffixes=suffixes)\n",
            "            from mitxgraders.helpers.calc.math_array import MathArray\n            with MathArray.enable_negative_powers(True):\n                result, _ = evaluator(formula=self.config['formula'],\n                                      variables=sample_dict,\n                                      functions=functions,\n                                      suffixes=suffixes)\n", 'D3'),
     Mutant('class-manager-installs-default-on-entry', MA, _CM_OLD, _CM_CLASS % ("self.array_class._negative_powers = self.array_class._default_negative_powers", "self.array_class._negative_powers = self.array_class._default_negative_powers"), 'D3'),
+    # wave 5: refactorings with one slip (the filed diff is the mutant, the corrected diff is the benign twin below)
+    Mutant('seeded-C14i-merged-add-sub-keeps-plus-for-zero-array', MA, hunks('C14i', MA), None, 'D1'),
+    Mutant('seeded-C14j-explicit-shape-check-returns-before-tensor-guard', MA, hunks('C14j', MA), None, 'D1'),
     Mutant('eval-product-cast-only-after-division', EXPR, "            # Need to cast np numerics as builtins here (in addition to during\n            # eval_node) because the result is changing shape\n            result = cast_np_numeric_as_builtin(result)",
            "            if op == '/':\n                result = cast_np_numeric_as_builtin(result)", 'D4'),
 ]
@@ -1374,5 +1381,11 @@ BENIGN = [
     # but the imported clause C14.REL.C11.D8.PAIR (sa/related.py, not mine) reports it; the twin is therefore not listed here.
     # NOTE: the class form of the manager (__enter__/__exit__) is exercised by the filed refactorings C01j/C02j/C04j/C11j/C14j/C16j
     # (module-level helper class, which a single text edit cannot express); a nested-class twin trips the imported C11 clause.
+    Benign('C14i-corrected-merged-add-sub', MA, hunks('C14i', MA, fixes=[
+        ("            if is_numberlike_zero_array(self):\n                return self.item() + other\n",
+         "            if is_numberlike_zero_array(self):\n                return self.item() - other if subtract else self.item() + other\n")]), None),
+    Benign('C14j-corrected-explicit-shape-check', MA, hunks('C14j', MA, fixes=[
+        ("        if is_vector(other):\n            if inner_length == len(other):\n                return\n",
+         "        if self.ndim > 2 or other.ndim > 2:\n            raise MathArrayError(\"Multiplication of tensor arrays is not currently supported.\")\n\n        if is_vector(other):\n            if inner_length == len(other):\n                return\n")]), None),
     Benign('mul-collapse-without-isinstance', MA, "                if isinstance(result, MathArray) and is_numberlike_array(result):", "                if is_numberlike_array(result):"),
 ]
